@@ -76,6 +76,11 @@ def workload(ctx):
     rng = ctx.rng(1)
     settings = _settings()
     idx = 0
+    for k, (no, cc) in enumerate(s_ for s_ in settings if 143 <= s_[0] <= 194):
+        pts = [[int(v) for v in rng.integers(0, 6, 3)] for _ in range(ctx.n(40, 120))]
+        sh = [int(v) for v in rng.integers(-2, 3, 3)]
+        if ctx.mine(k + 3):
+            yield "thirds", {"no": no, "cc": cc, "pts": pts, "shift": sh}
     for k, no in enumerate(c04.R_GROUPS):
         if ctx.mine(k):
             yield "r_both", {"no": no, "g": [int(v) for v in rng.integers(0, 5, 3)], "reverse": bool((k + ctx.seed) % 2)}
@@ -176,4 +181,22 @@ def c15_generic(i):
     return GENERIC[i % len(GENERIC)]
 
 
-CASES = {"setting": case_setting, "grid_plane": case_grid_plane, "r_both": case_r_both}
+THIRDS = [Fraction(0), Fraction(1, 3), Fraction(2, 3), Fraction(1, 6), Fraction(5, 6), Fraction(1, 2)]
+
+
+def case_thirds(ctx, p):
+    """float thirds and sixths against the 6-digit translations of the trigonal / hexagonal tables, in both states of the
+    package-wide switch (a valid position must be counted the same whether input checks are on or off)"""
+    import xfab
+    no, cc = p["no"], p["cc"]
+    was = xfab.CHECKS.activated
+    try:
+        for n, (i, j, k) in enumerate(p["pts"]):
+            xfab.CHECKS.activated = bool(n % 2)
+            _call(ctx, (THIRDS[i], THIRDS[j], THIRDS[k]), no, cc, shift=p["shift"] if n % 3 == 0 else (0, 0, 0), by_name=(n % 4 == 0))
+    finally:
+        xfab.CHECKS.activated = bool(was)
+    ctx.mon.config("thirds:%s" % ("rhombohedral" if cc == "rhombohedral" else "hexagonal axes"))
+
+
+CASES = {"setting": case_setting, "grid_plane": case_grid_plane, "r_both": case_r_both, "thirds": case_thirds}
